@@ -48,7 +48,7 @@ ASSUMPTIONS = [
     "with the documented InsufficientResourceError: over-conservative, not "
     "infeasible, so it is outside the success clause and not reported)",
 ]
-FLOORS = {"temperature_callback_placement": 200, "stopped_by_callback": 20,
+FLOORS = {"order_given_as_iter": 20, "order_given_as_tuple": 20, "temperature_callback_placement": 200, "stopped_by_callback": 20,
           "feasibility_checked": 300, "easy_must_succeed": 100,
           "kernel_quiescent_invariant": 200, "c_kernel_under_asan": 20,
           "documented_error": 20}
